@@ -135,6 +135,8 @@ def eq_value(a, b):
             return False
         if len(a) != len(b):
             return False
+        if isinstance(a, deque) and isinstance(b, deque) and a.maxlen != b.maxlen:
+            return False       # a sliding window that lost its bound is a different state
         return b_and(*[eq_value(x, y) for x, y in zip(a, b)])
     if isinstance(a, np.ndarray) or isinstance(b, np.ndarray):
         a = arrays.asnd(a)
